@@ -28,7 +28,7 @@ Cand(kind) ==     \* set of candidate actions of one kind (empty = not offered t
                           -> {[op |-> kind, h |-> h, k |-> R(KeySet)]}
        [] kind \in {"delmin", "delmax", "len", "min", "max"}
                           -> {[op |-> kind, h |-> h]}
-       [] kind = "clone"  -> IF Len(trees) < MaxH /\ Len(trees[h]) >= 2
+       [] kind = "clone"  -> IF Len(trees) < MaxH   \* in every state: never used, drained, one item ...
                              THEN {[op |-> "clone", h |-> h, h2 |-> Len(trees) + 1]} ELSE {}
        [] kind = "clear"  -> IF R(1..6) = 1 THEN {[op |-> "clear", h |-> h, fl |-> R(BOOLEAN)]} ELSE {}
        [] kind = "wscan"  -> {[op |-> "scan", h |-> 1, fn |-> R(WrapScans), p |-> R(PivotSet), q |-> 0,
